@@ -227,6 +227,10 @@ struct Atom {
 	shift: u64,
 	lock: u64,
 	nrd: bool,
+	/// Pool.tla Atoms[..].feat: "plain", "cbout" (output flagged COINBASE), "cbker" (COINBASE kernel)
+	feat: String,
+	/// Pool.tla Atoms[..].kord: 0, or the band of the kernel hash (1 sorts first ... 3 last inside an aggregate)
+	kord: u64,
 }
 
 struct World {
@@ -262,6 +266,8 @@ fn parse_atoms(beh: &Value) -> BTreeMap<u64, Atom> {
 				shift: v["shift"].as_u64().unwrap_or(0),
 				lock: v["lock"].as_u64().unwrap_or(0),
 				nrd: v["nrd"].as_bool().unwrap_or(false),
+				feat: v["feat"].as_str().unwrap_or("plain").to_string(),
+				kord: v["kord"].as_u64().unwrap_or(0),
 			},
 		);
 	}
@@ -324,8 +330,11 @@ fn build_world(beh: &Value) -> World {
 				for c in &a.outs {
 					elems.push(build::output(values[c], kid_pool(*c)));
 				}
-				let fee = FeeFields::new(a.shift, a.fee).unwrap();
-				let features = if a.nrd {
+				let fee = if a.feat == "cbker" { FeeFields::zero() } else { FeeFields::new(a.shift, a.fee).unwrap() };
+				let features = if a.feat == "cbker" {
+					assert_eq!(a.fee, 0, "a coinbase kernel carries no fee");
+					KernelFeatures::Coinbase
+				} else if a.nrd {
 					KernelFeatures::NoRecentDuplicate {
 						fee,
 						relative_height: NRDRelativeHeight::new(1).unwrap(),
@@ -338,7 +347,32 @@ fn build_world(beh: &Value) -> World {
 						lock_height: a.lock,
 					}
 				};
-				let t = build::transaction(features, &elems, &kc, &pb).expect("build tx");
+				// kord: the kernel excess is drawn at random by build::transaction, kernels sort by hash - rebuild until
+				// the hash falls into the band the universe asks for (1: first quarter, 2: middle, 3: last quarter)
+				let mut t;
+				let mut tries = 0;
+				loop {
+					t = build::transaction(features, &elems, &kc, &pb).expect("build tx");
+					let b0 = t.kernels()[0].hash().as_bytes()[0];
+					let ok = match a.kord {
+						0 => true,
+						1 => b0 < 0x40,
+						2 => b0 >= 0x40 && b0 < 0xc0,
+						_ => b0 >= 0xc0,
+					};
+					tries += 1;
+					if ok {
+						break;
+					}
+					assert!(tries < 400, "no kernel hash in the band of kord {}", a.kord);
+				}
+				if a.feat == "cbout" {
+					// the same transaction with the feature byte of its first output flipped to COINBASE; commitment, range
+					// proof, kernel and offset untouched (the byte is covered by none of them)
+					let mut outputs: Vec<Output> = t.outputs().to_vec();
+					outputs[0] = Output::new(OutputFeatures::Coinbase, outputs[0].commitment(), outputs[0].proof());
+					t = Transaction::new(t.inputs(), &outputs, t.kernels()).with_offset(t.offset.clone());
+				}
 				cache.lock().unwrap().insert(key, t.clone());
 				t
 			}
@@ -831,6 +865,22 @@ fn replay_one(beh: &Value, work: &str, idx: usize) -> Value {
 					"mislabelled" => w.with_declared_inputs(&w.tx_of(&parts), true),
 					_ => w.tx_of(&parts),
 				};
+				// the lock heights of the submitted transaction's kernels, in the order the kernels have in it
+				let klocks: Vec<u64> = tx
+					.kernels()
+					.iter()
+					.filter_map(|k| match k.features {
+						KernelFeatures::HeightLocked { lock_height, .. } => Some(lock_height),
+						_ => None,
+					})
+					.collect();
+				if klocks.len() > 1 {
+					o["kernel_locks"] = json!(klocks);
+				}
+				o["cb_flagged"] = json!([
+					tx.outputs().iter().filter(|x| x.is_coinbase()).count(),
+					tx.kernels().iter().filter(|x| x.is_coinbase()).count()
+				]);
 				let header = n.chain.head_header().unwrap();
 				let before = n.pool.read().txpool.size();
 				let pre_real = ids_json(&w, &n.pool.read().txpool.all_transactions());
